@@ -289,7 +289,8 @@ func (it *Interp) flushAsserts() {
 	}
 	it.nAssertQ++
 	first := it.check(smt.Not(conj))
-	if it.Solver2 != nil && first != smt.Unknown {
+	it.crossCtr++
+	if it.Solver2 != nil && first != smt.Unknown && (it.CrossEvery <= 1 || it.crossCtr%it.CrossEvery == 0) {
 		// thorough tier: every assertion batch is re-decided by a second solver; a disagreement is never a pass
 		q := smt.Not(conj)
 		r2, _, err := it.Solver2.Check(q, it.sliceFor(q), nil)
